@@ -6,7 +6,7 @@ import gens as G
 from props.c05 import KIND, QUAD, BOOL, SPIN, cls_of
 
 ID = "C04"
-IMPORTS = "From QV.Model Require Import Base Matrix Convert Reduce.\nFrom QV.Corr Require Import C04."
+IMPORTS = "From QV.Model Require Import Base Matrix Arith Convert Reduce.\nFrom QV.Proofs Require Import InvProofs.\nFrom QV.Corr Require Import C04."
 CASE_TYPE = "(cin * cout)"
 RUN, EQB = "run_case", "out_eqb"
 N = {"quick": 800, "thorough": 10000}
@@ -52,7 +52,19 @@ def gen_(rng, i, tier):
     if r < 0.60:
         kind = rng.choice(["QUBO", "QUSO", "QUBO", "QUSO", "PUBO", "PUSO", "PCBO", "PCSO"])
         t = G.quad_terms(rng, rng.choice(['int', 'pool']), spin=(kind in SPIN))
-        return {"op": "method", "kind": kind, "terms": G.jraw(t), "meth": rng.randrange(4)}
+        # sometimes: convert once, change coefficients in place, convert again (the second result is the one compared)
+        edits = []
+        if t and rng.random() < 0.3:
+            for _ in range(rng.randint(1, 2)):
+                k = rng.choice(t)[0]
+                r2 = rng.random()
+                if r2 < 0.4:
+                    edits.append({"e": "set", "k": [C.enc(x) for x in k], "v": [rng.choice([-3, -1, 2, 5]), 1]})
+                elif r2 < 0.8:
+                    edits.append({"e": "aug", "k": [C.enc(x) for x in k], "v": [rng.choice([-2, 1, 3]), 1]})
+                else:
+                    edits.append({"e": "imul", "okind": "scalar", "c": [rng.choice([2, -1, 3]), 1]})
+        return {"op": "method", "kind": kind, "terms": G.jraw(t), "meth": rng.randrange(4), "edits": edits}
     if r < 0.80:
         kind = rng.choice(["QUBO", "QUSO", "PUBO", "PUSO", "PCBO", "PCSO"])
         quad = kind in QUAD
@@ -103,6 +115,11 @@ def run_impl(case):
             return out
         if op == "method":
             obj = build(case["kind"], case["terms"])
+            if case.get("edits"):
+                from props import c14
+                getattr(obj, METH[case["meth"]])()          # a first conversion, then in-place edits
+                for e in case["edits"]:
+                    obj = c14.apply(obj, e)
             snap = C.snapshot(obj)
             r = getattr(obj, METH[case["meth"]])()
             if C.snapshot(obj) != snap:
@@ -169,7 +186,9 @@ def literal(case, out):
     if op == "conv":
         cin = "Conv %d%%nat %s %s" % (case["fn"], C.optc(case["src"], lambda k: KIND[k]), tl(case["terms"]))
     elif op == "method":
-        cin = "Method %s %s %d%%nat" % (KIND[case["kind"]], tl(case["terms"]), case["meth"])
+        from props import c14
+        cin = "Method %s %s [%s] %d%%nat" % (KIND[case["kind"]], tl(case["terms"]),
+                                            "; ".join(c14.edit_lit(e) for e in case.get("edits", [])), case["meth"])
     elif op == "convsol":
         spin_model = case["kind"] in SPIN
         flag = spin_model if case["flag"] is None else case["flag"]
